@@ -282,7 +282,7 @@ func (d *DStarLite) Step() bool {
 	return true
 }
 
-// MoveTo moves to n in the world graph.
+// MoveTo moves to n in the world graph and plans the path from there.
 func (d *DStarLite) MoveTo(n graph.Node) {
 	// d.last is the location for which the key modifier is up
 	// to date; Step moves d.s without touching either, so the
@@ -291,6 +291,9 @@ func (d *DStarLite) MoveTo(n graph.Node) {
 	d.keyModifier += d.heuristic(d.last, s)
 	d.last = s
 	d.s = s
+	// The search so far stopped as soon as the previous location
+	// was settled and may not have reached n.
+	d.findShortestPath()
 }
 
 // UpdateWorld updates or adds edges in the world graph. UpdateWorld will
